@@ -162,11 +162,15 @@ def run(ctx, B):
         for e in ed[ed > 0]:
             for q in ([1e-6, 1e-3] if not quick else [1e-6]):
                 pts |= {e * (1 + q), e * (1 - q)}
+            # the edge itself and its two neighbouring doubles: sites that compare E with the edge must agree on '<' vs '<='
+            pts |= {float(e), float(np.nextafter(e, np.inf)), float(np.nextafter(e, -np.inf))}
         if Z in K:
             ends = []
             for s, (edge, x, y, y2) in K[Z]["partial"].items():
                 if s <= 8:
                     ends += [np.exp(x[0]), np.exp(x[-1])]
+                    if edge > 0:
+                        pts |= {float(edge), float(np.nextafter(edge, np.inf)), float(np.nextafter(edge, -np.inf))}
             for e in set(ends):
                 pts |= {e * (1 + 1e-6), e * (1 - 1e-6)}
             hi = max(ends) if ends else 100.0
@@ -291,7 +295,7 @@ def run(ctx, B):
             ctx.sample(dict(Z=Z, E=float(Ep[j]), vacancy_production_full={s: float(P["full"][s][j]) for s in SH}, own_photo={SH[i]: float(own[i][j]) for i in range(9)}))
     X.close()
     ctx.add(nontrivial=nt)
-    ctx.cov["rule"] = ("configuration K: Z = 1..120 x shells [-3,34] x 5 variants x {cm2/g, barn} x energies bracketing every K..M5 edge (1 +- 1e-6%s), Kissel table ends, "
+    ctx.cov["rule"] = ("configuration K: Z = 1..120 x shells [-3,34] x 5 variants x {cm2/g, barn} x energies bracketing every K..M5 edge (1 +- 1e-6%s, the edge itself and its two neighbouring doubles), Kissel table ends, "
                        "log-spaced points; line macros [-390,6] (%s); configuration A: every call must fail; reference = recursion over public primitives with Auger "
                        "membership/multiplicity parsed from macro names; distinct_nontrivial = (function, tuple) cells where a value is mandatory" % (
                            "" if quick else ", 1e-3", "all lines x all variants for 7 elements, strided lines x {none, full} otherwise" if quick else "all lines x all variants"))
